@@ -178,6 +178,61 @@ func applyFlip(h hdr, l l4, payload, base []byte, region, idx int, bit uint) (ck
 	return uint64(binary.BigEndian.Uint16(out[l.prelen():])), true
 }
 
+// sum32 is the exact 32-bit sum of the 16-bit words of pseudo header and upper layer. It is used only to
+// STEER inputs to the folding boundaries (never to judge the implementation).
+func sum32(h hdr, proto uint8, upper []byte) uint32 {
+	var s uint32
+	add := func(b []byte) {
+		for i := 0; i+1 < len(b); i += 2 {
+			s += uint32(b[i])<<8 | uint32(b[i+1])
+		}
+		if len(b)%2 == 1 {
+			s += uint32(b[len(b)-1]) << 8
+		}
+	}
+	var ia [16]byte
+	binary.BigEndian.PutUint64(ia[:8], h.DstIA)
+	binary.BigEndian.PutUint64(ia[8:], h.SrcIA)
+	add(ia[:])
+	add(h.RawDst)
+	add(h.RawSrc)
+	s += uint32(len(upper))>>16 + uint32(len(upper))&0xffff + uint32(proto)
+	add(upper)
+	return s
+}
+
+// steerTargets: what the first payload word is chosen for. hl = (S>>16)+(S&0xffff) after the first folding
+// round, lo = S&0xffff.
+var steerTargets = []struct {
+	name string
+	ok   func(hl, lo uint32) bool
+}{
+	{"hl=0x10000", func(hl, lo uint32) bool { return hl == 0x10000 }},
+	{"hl=0xffff", func(hl, lo uint32) bool { return hl == 0xffff }},
+	{"hl=0x10001", func(hl, lo uint32) bool { return hl == 0x10001 }},
+	{"lo=0xffff", func(hl, lo uint32) bool { return lo == 0xffff }},
+	{"lo=0xfffe", func(hl, lo uint32) bool { return lo == 0xfffe }},
+	{"hl=0x1fffe", func(hl, lo uint32) bool { return hl == 0x1fffe }},
+	{"lo=0x0000", func(hl, lo uint32) bool { return lo == 0 }},
+}
+
+// steer picks the value of the payload word at offset 0 so that the sum meets target t (or the next
+// feasible one). upper0 is the upper layer with zeroed checksum field; payloadOff the offset of the payload.
+func steer(h hdr, proto uint8, upper0 []byte, payloadOff int, t int) (w uint16, name string, ok bool) {
+	old := uint32(upper0[payloadOff])<<8 | uint32(upper0[payloadOff+1])
+	s0 := sum32(h, proto, upper0) - old
+	for k := 0; k < len(steerTargets); k++ {
+		tg := steerTargets[(t+k)%len(steerTargets)]
+		for v := uint32(0); v < 0x10000; v++ {
+			s := s0 + v
+			if tg.ok(s>>16+s&0xffff, s&0xffff) {
+				return uint16(v), tg.name, true
+			}
+		}
+	}
+	return 0, "", false
+}
+
 func bytesInts(b []byte) string {
 	// a list of short lists: coqc parses long flat list literals slowly
 	var chunks []string
@@ -268,9 +323,9 @@ func genLen(r *vgen.Rand, thorough bool, i int) int {
 
 func main() {
 	run := vgen.Flags("C20")
-	run.Imports = []string{"Model.Checksum"}
-	run.CheckFn = "Checksum.check"
-	run.DiagFn = "Checksum.diag"
+	run.Imports = []string{"Model.Checksum", "Model.ChecksumX"}
+	run.CheckFn = "ChecksumX.check"
+	run.DiagFn = "ChecksumX.diag"
 	run.CaseType = "Checksum.case"
 	run.Prelude = "From Coq Require Import PrimInt63."
 	thorough := run.Tier == "thorough"
@@ -281,7 +336,10 @@ func main() {
 		"0x0000 (one's complement corner); 4-24 single-bit flips per case over all regions, each re-serialized by the real " +
 		"code; plus malformed headers (missing / odd-length raw addresses). Cases form sequences of 8; in 3 of 4 sequences every " +
 		"serialization goes through one recycled gopacket.SerializeBuffer (Clear between packets, sizes and UDP/SCMP mixed), " +
-		"in the others through fresh buffers. non-trivial = serialization succeeded"
+		"in the others through fresh buffers. Every 8th case (UDP and SCMP, odd and even lengths) has its first payload word chosen " +
+		"so that the 32-bit sum S sits on a folding boundary: (S>>16)+(S&0xffff) in {0xffff, 0x10000, 0x10001, 0x1fffe if reachable} " +
+		"or S&0xffff in {0xffff, 0xfffe, 0}. On the implementation's bytes the oracle also flips every bit of the checksum field and " +
+		"of the pseudo-header length word. non-trivial = serialization succeeded"
 	rng := vgen.NewRand(run.Seed)
 
 	// Cases come in sequences of seqLen consecutive ids. In three of four sequences all serializations
@@ -368,6 +426,23 @@ func main() {
 				copy(payload[off:], out[l.prelen():l.prelen()+2])
 			}
 		}
+		steered := ""
+		if i%8 == 5 && malformed == "" && plen >= 2 {
+			// steer the 32-bit sum to a folding boundary through the first payload word (word aligned:
+			// the L4 header in front of it has 8 resp. 4 bytes)
+			if out0, code0 := serL4(h, l, payload); code0 == 0 {
+				upper0 := append([]byte(nil), out0...)
+				upper0[l.prelen()], upper0[l.prelen()+1] = 0, 0
+				proto := uint8(slayers.L4SCMP)
+				if l.UDP {
+					proto = uint8(slayers.L4UDP)
+				}
+				if w, name, ok := steer(h, proto, upper0, l.prelen()+2, i/8); ok {
+					binary.BigEndian.PutUint16(payload, w)
+					steered = name
+				}
+			}
+		}
 		out, code := serL4(h, l, payload)
 		var goViol string
 		if code == 0 && l.Fix && malformed == "" {
@@ -446,6 +521,9 @@ func main() {
 			run.Tally("payload:1501-9000")
 		}
 		run.Tally(fmt.Sprintf("result:%d", code))
+		if steered != "" {
+			run.Tally("steered:" + steered)
+		}
 		ck := uint64(0)
 		if code == 0 {
 			ck = uint64(binary.BigEndian.Uint16(out[l.prelen():]))
@@ -462,7 +540,7 @@ func main() {
 			"dst_type": h.DstType, "src_type": h.SrcType, "raw_dst": fmt.Sprintf("%x", h.RawDst),
 			"raw_src": fmt.Sprintf("%x", h.RawSrc), "payload_len": plen, "fix_lengths": l.Fix,
 			"malformed": malformed, "corner": corner, "result": code, "checksum": ck, "flips": flips,
-			"recycled_buffer": shared != nil, "sequence": seq}
+			"recycled_buffer": shared != nil, "sequence": seq, "steered": steered}
 		if plen <= 64 {
 			desc["payload"] = fmt.Sprintf("%x", payload)
 		}
